@@ -181,7 +181,7 @@ def main():
 
 
 MANIFEST = {
-    "claimed": False,
+    "claimed": True,
     "text": "Theorems (Coq, closed): over EVERY history of (address, instant) calls, every hash function of the cache (RandomState is a universally quantified function argument), every size and cutoff: a call is refused iff the cache is enabled and the most recent earlier call on the same slot (hash mod size) was made by the same address less than the cutoff before, with the saturating duration_since (C20_refused_iff; every call overwrites its slot); corollaries: refused only if the client's own most recent earlier request was within the cutoff (C20_own_rate_only), refused whenever it was and no other address used the slot in between (C20_must_limit), never refused with size 0 (C20_size_zero), no panic (C20_total). Position in the server policy, on the decision model of Server::handle: clients on the deny list or off the allow list never touch the cache and are never rate-limited (C20_position_lists_first); a list-passing datagram makes exactly one is_allowed call whatever it contains, and a refusal sends nothing and registers RateLimit/Ignore (C20_position); over any history of datagrams through one server the cache sees exactly the list-passing sub-history (C20_position_history) and a datagram is rate-limited iff the characterisation above holds on that sub-history (C20_server_refused_iff). Tie: TimestampedCache::is_allowed with explicit instants (slots read back through the private `index`), verdicts and final cache contents compared; Server::handle sequences with simulated time.",
     "note": "Trusted: Coq kernel+vm_compute; hand-written models coq/Model/RateCache.v and coq/Model/Server.v (addresses numbered injectively, Instant/Duration as integer nanoseconds); harness + python driver; in Server::handle sequences elapsed time is simulated by back-dating the cache entries (only differences of instants are observable; real elapsed time between calls assumed < 1 min, boundaries at +-1 ns are exercised on is_allowed directly). The cache keys on the address as given (an IPv4-mapped and the plain IPv4 address are different keys) while the lists canonicalise: modelled as is. Print Assumptions: closed under the global context for all nine theorems.",
     "design_ref": "DESIGN.md 3 C20",
